@@ -2,7 +2,7 @@
 
 Obligations: the theorems of PPLV/Props/C12.lean (about the code-shaped model PPLV/Interval/Model.lean).
 Tie to /repo: harness/c12_interval.cc runs the real Interval operations for three interval types
-(mpq open/closed, mpz closed, double open/closed) on an exhaustive template set of operand pairs
+(mpq open/closed, mpz closed, double / float / long double open/closed) on an exhaustive template set of operand pairs
 plus seeded random pairs; the native driver pplv_c12 checks per event
   model   : the model (with the defect switches measured on the library at check time) = real result
   enclose : sampled members' exact results are inside the REAL result        } verdicts of the
@@ -11,7 +11,7 @@ plus seeded random pairs; the native driver pplv_c12 checks per event
   pred    : contains / is_disjoint_from / == answered against the set-theoretic truth
   okinv   : OK() of the result is false
 """
-import collections, hashlib, json, os, re
+import collections, hashlib, json, os, re, subprocess
 
 LEVEL = "proof"
 
@@ -62,15 +62,8 @@ def run(ctx):
     wd = ctx.workdir()
     nrandom = 2000 if ctx.tier == "quick" else 40000
     seed = ctx.seed
-    only = ""
-    if ctx.replay:
-        rp = json.load(open(ctx.replay))
-        seed = rp.get("seed", seed)
-        only = rp.get("op", "").split(":")[0]
     journal = os.path.join(wd, "journal.txt")
     cmd = [h, "--seed", str(seed), "--random", str(nrandom)]
-    if only:
-        cmd += ["--only", only]
     rc, _, err = ctx.run(cmd, stdout_path=journal, timeout=1500)
     if rc != 0:
         ctx.fatal("harness failed rc=%s %s" % (rc, (err or "")[-500:]))
@@ -92,15 +85,29 @@ def run(ctx):
         ctx.fatal("harness did not report the defect probes")
     d3, d12 = probes["d3"][0], probes["d12"][0]
 
-    verdicts = os.path.join(wd, "verdicts.txt")
-    rc, _, err = ctx.run([drv, "--d3", "1" if d3 else "0", "--d12", "1" if d12 else "0"],
-                         stdin_path=journal, stdout_path=verdicts, timeout=1500)
-    if rc != 0:
-        ctx.fatal("driver failed rc=%s %s" % (rc, (err or "")[-500:]))
+    # one driver process per interval type, in parallel
+    by_type = collections.defaultdict(list)
+    for eid in order:
+        by_type[events[eid][1]].append(" ".join(events[eid]))
+    procs = []
+    env = dict(os.environ)
+    for ty, lines in sorted(by_type.items()):
+        jp = os.path.join(wd, "journal-%s.txt" % ty)
+        vp = os.path.join(wd, "verdicts-%s.txt" % ty)
+        with open(jp, "w") as f:
+            f.write("\n".join(lines) + "\n")
+        procs.append((ty, vp, subprocess.Popen([drv, "--d3", "1" if d3 else "0", "--d12", "1" if d12 else "0"],
+                                               stdin=open(jp), stdout=open(vp, "w"), stderr=subprocess.PIPE, env=env)))
+    verdict_lines = []
+    for ty, vp, pr in procs:
+        _, err = pr.communicate(timeout=3000)
+        if pr.returncode != 0:
+            ctx.fatal("driver failed on type %s rc=%s %s" % (ty, pr.returncode, (err or b"")[-500:]))
+        verdict_lines += open(vp).read().splitlines()
 
     n_ok = 0
     mism = collections.defaultdict(list)       # id -> [(obligation, tags, detail)]
-    for line in open(verdicts):
+    for line in verdict_lines:
         if line.startswith("ok "):
             n_ok += 1
         elif line.startswith("MISMATCH "):
@@ -111,8 +118,8 @@ def run(ctx):
     if judged != len(events):
         ctx.fatal("driver judged %d of %d events" % (judged, len(events)))
 
-    replay_cmd = "VERIF_SEED=%d bin/check C12 --replay <this file>   # or: %s --seed %d --random %d --only <op> | %s --d3 %d --d12 %d" % (
-        seed, os.path.basename(h), seed, nrandom, os.path.basename(drv), d3, d12)
+    replay_cmd = "bin/check C12 --replay <this file>   # = %s --one '<ty> <op> <I> <J>' | %s --d3 <measured> --d12 <measured>" % (
+        os.path.basename(h), os.path.basename(drv))
 
     # ---- crashes: attributed to the event after the last journalled one
     for c, last in crashes:
@@ -142,7 +149,9 @@ def run(ctx):
             what = "%s on %s: %s %s %s = %s violates '%s': %s" % (site, ev[1], ev[3], op, ev[4], ev[5], ob, detail)
             ctx.violation(what, {"event": " ".join(ev), "type": ev[1], "op": op, "I": ev[3], "J": ev[4],
                                  "real_result": ev[5], "obligation": ob, "detail": detail,
-                                 "all_mismatches": mism[eid], "replay_cmd": replay_cmd},
+                                 "all_mismatches": mism[eid], "replay_cmd": replay_cmd,
+                                 "history": [" ".join(ev)], "driver": "pplv_c12",
+                                 "driver_args": ["--d3", "1" if d3 else "0", "--d12", "1" if d12 else "0"]},
                           found_input=True, record={"site": site, "tags": tags, "obligation": ob})
         elif any(m[0] == "parse" for m in mism[eid]):
             ctx.fatal("driver could not parse event %s: %s" % (" ".join(ev), mism[eid]))
@@ -156,7 +165,10 @@ def run(ctx):
         ctx.violation("the library no longer behaves as the model PPLV/Interval/Model.lean on %d events (%s); first: %s : %s"
                       % (len(model_only), dict(by_op), " ".join(ev), ms[0][2]),
                       {"event": " ".join(ev), "op": ev[2], "mismatches": ms, "count": len(model_only),
-                       "theorems": "PPLV.Props.C12 (all: they are statements about the model)", "replay_cmd": replay_cmd},
+                       "theorems": "PPLV.Props.C12 (all: they are statements about the model)", "replay_cmd": replay_cmd,
+                       "type": ev[1], "I": ev[3], "J": ev[4], "real_result": ev[5],
+                       "history": [" ".join(e) for e, _ in model_only[:50]], "driver": "pplv_c12",
+                       "driver_args": ["--d3", "1" if d3 else "0", "--d12", "1" if d12 else "0"]},
                       found_input=False, record={"site": SITE.get(ev[2].split(":")[0], ev[2]), "tags": ["model_correspondence"]})
 
     # ---- search in the MODEL (the repaired switches, i.e. what op_encloses / op_exact are about)
@@ -225,3 +237,49 @@ def run(ctx):
         bad = ctx.leanchecker(["PPLV.Props.C12"])
         for b in bad:
             ctx.violation("leanchecker: " + b, {"obligation": b}, found_input=False, record={"site": "lean", "tags": ["proof"]})
+
+
+def replay(ctx, path):
+    """Re-run one recorded event on the library as it is now and judge it again."""
+    from checks.common import replay_generic
+    r = json.load(open(path))
+    if not all(k in r for k in ("type", "op", "I", "J")):
+        return replay_generic(ctx, path)
+    ctx.ensure_ppl()
+    drv = ctx.ensure_pplv("pplv_c12")
+    h = ctx.compile_harness("c12_interval.cc", flags=("-frounding-math",))
+    rc, out, err = ctx.run([h, "--one", "%s %s %s %s" % (r["type"], r["op"], r["I"], r["J"])], timeout=300)
+    print("recorded : %s" % r.get("event"))
+    lines = (out or "").splitlines()
+    probes = {t[1]: t[2] == "1" for t in (l.split() for l in lines) if t and t[0] == "probe"}
+    evs = [l for l in lines if len(l.split()) == 7 and l.split()[2] == r["op"]]
+    crashed = [l for l in lines if l.startswith("crash")]
+    if crashed:
+        print("now      : %s" % crashed[0])
+        print("VIOLATION property=%s replay=%s" % (ctx.pid, path))
+        return 1
+    if rc != 0 or not evs:
+        print("could not re-run the event: rc=%s %s" % (rc, (err or "")[-300:]))
+        return 2
+    print("now      : %s" % evs[0])
+    wd = ctx.workdir()
+    jp = os.path.join(wd, "one.txt")
+    open(jp, "w").write(evs[0] + "\n")
+    rc, vout, err = ctx.run([drv, "--d3", "1" if probes.get("d3") else "0", "--d12", "1" if probes.get("d12") else "0"],
+                            stdin_path=jp, timeout=300)
+    bad = False
+    for l in (vout or "").splitlines():
+        print("verdict  : " + l)
+        if l.startswith("MISMATCH"):
+            t = l.split(" ", 4)
+            tags = [] if t[3] == "tags=-" else t[3][5:].split(",")
+            site = SITE.get(r["op"].split(":")[0], r["op"])
+            k = ctx.match_known({"site": site, "tags": tags})
+            if k is not None and t[2] in PROPERTY_OBLIGATIONS:
+                print("KNOWN-FINDING: property=%s %s [%s]" % (ctx.pid, k["what"], k["id"]))
+            else:
+                bad = True
+    if bad:
+        print("VIOLATION property=%s replay=%s" % (ctx.pid, path))
+        return 1
+    return 0
